@@ -765,7 +765,10 @@ pub fn run(sim: &Sim, prop: &str, tier: Tier) -> Outcome {
                 let self_sender_live = model.live.values().any(|h| matches!(h.beh, Beh::SelfSender(_)));
                 let beh = if zst.is_some() {
                     Beh::Plain
-                } else if !self_sender_live && sim.chance(6) {
+                } else if prop == "C16" && !self_sender_live && sim.chance(6) {
+                    // (only in the C16 check: own-address sends made by handlers are outside
+                    // what C15 / C17 speak about, and an implementation that mishandles them
+                    // must not disturb those checks)
                     // (at most one per table: two would multiply the chain at every level)
                     Beh::SelfSender(own)
                 } else if sim.chance(25) {
